@@ -108,6 +108,7 @@ def guard_kind(f, cond):
     """classify the condition of a branch that replaces a component by zeros.  Returns None when it contains no NaN test (an ordinary branch),
     else (literal_thresholds, other): the disjuncts that compare a floating value with a non-zero literal, and the disjuncts that are neither
     a NaN test, nor a comparison with literal 0, nor such a threshold"""
+    cond = _resolve_flag(f, cond)
     if not _has_nan_test(cond):
         return None
     parts = []
@@ -116,27 +117,67 @@ def guard_kind(f, cond):
         n0 = strip(n)
         while n0.get('kind') == 'ParenExpr':
             n0 = strip(kids(n0)[0])
+        if n0.get('kind') == 'ConditionalOperator' and len(kids(n0)) == 3 and _literal(kids(n0)[1]) == 1.0 and _literal(kids(n0)[2]) == 0.0:
+            split(kids(n0)[0])                      # (c) ? 1 : 0
+            return
         if n0.get('kind') == 'BinaryOperator' and n0.get('opcode') == '||':
             for c in kids(n0):
                 split(c)
         else:
             parts.append(n0)
     split(cond)
+
+    def is_nan_test(d):
+        if d.get('kind') == 'BinaryOperator' and d.get('opcode') == '!=' and exprs.text_key(kids(d)[0]) == exprs.text_key(kids(d)[1]):
+            return True
+        return d.get('kind') == 'CallExpr' and callee_name(d) in ('_isnan_', 'isnan', '__builtin_isnan')
     lits, other = [], []
     for d in parts:
-        if _has_nan_test(d) and not (d.get('kind') == 'BinaryOperator' and d.get('opcode') in ('&&',)):
+        if is_nan_test(d):
             continue
+        shown_ = f.unit.text(d)[:60]
+        if d.get('kind') == 'UnaryOperator' and d.get('opcode') == '!':
+            # !(x > c)  is  x <= c
+            inner = strip(kids(d)[0])
+            while inner.get('kind') == 'ParenExpr':
+                inner = strip(kids(inner)[0])
+            if inner.get('kind') == 'BinaryOperator' and inner.get('opcode') in ('<', '<=', '>', '>='):
+                d = inner
         if d.get('kind') == 'BinaryOperator' and d.get('opcode') in ('<', '<=', '>', '>=', '=='):
             a, b = kids(d)
             la, lb = _literal(a), _literal(b)
             if (la is not None) != (lb is not None):
                 v = la if la is not None else lb
                 if v == 0.0:
-                    continue                                # exactly zero: the null component itself
-                lits.append((f.unit.text(d)[:60], v))
+                    tested = f.unit.text(b if la is not None else a).replace(' ', '')
+                    if tested.startswith('mod_') or tested.startswith('dot_') or 'DotProd' in tested or tested in ('conv',) or tested.startswith('(*'):
+                        continue                            # exactly zero squared norm / criterion: the null component itself
+                    other.append(f.unit.text(d)[:60])       # zero test of some other quantity: not known to mean "null component"
+                    continue
+                lits.append((shown_, v))
                 continue
-        other.append(f.unit.text(d)[:60])
+        other.append(shown_)
     return lits, other
+
+
+def _resolve_flag(f, cond, depth=0):
+    """`int nullpc = (isnan(conv) || ...); if (nullpc)`: a condition that is just an integer local with a single definition stands for that definition"""
+    c0 = strip(cond)
+    while c0.get('kind') == 'ParenExpr':
+        c0 = strip(kids(c0)[0])
+    if depth > 2 or c0.get('kind') != 'DeclRefExpr' or fe.is_float_type(c0) or c0['referencedDecl'].get('kind') != 'VarDecl' or f.body is None:
+        return cond
+    did = c0['referencedDecl'].get('id')
+    defs = []
+    for n in walk(f.body):
+        if n.get('kind') == 'VarDecl' and n.get('id') == did and kids(n):
+            defs.append(kids(n)[-1])
+        if n.get('kind') in ('BinaryOperator', 'CompoundAssignOperator') and n.get('opcode', '').endswith('=') and n.get('opcode') not in ('==', '!=', '<=', '>=') \
+                and fe.ref_id(kids(n)[0]) == did:
+            defs.append(kids(n)[1])
+    if len(defs) != 1:
+        return cond
+    return _resolve_flag(f, defs[0], depth + 1)
 
 
 def _literal(n):
